@@ -1869,3 +1869,52 @@ class OperatorRank(Kernel):
 
 
 KERNELS += [OperatorRank]
+
+
+# ---------------------------------------------------------------- input_ts_pattern_match (the matcher try_match uses for supplied arguments)
+class InputTsPatternMatch(TsPatternMatch):
+    name = "type_pattern.cpp:input_ts_pattern_match"
+    filter = "input_ts_pattern_match"
+    fn_name = "input_ts_pattern_match"
+    title = ("input_ts_pattern_match: a bundle schema variable on an INPUT is bound once, to the supplied bundle, and only if the "
+             "variable's constraints allow that bundle; a bound one never accepts a bundle of another shape")
+
+    def function_handler(self, name, node, callee_node):
+        if name == "input_ts_pattern_match":
+            return TsPatternMatch.function_handler(self, "ts_pattern_match", node, callee_node)
+        if name == "input_accepts_output_schema":
+            return lambda I, a, n: I.ctx.fresh(name, "bool")
+        return TsPatternMatch.function_handler(self, name, node, callee_node)
+
+    def post(self, I, ret):
+        ctx = I.ctx
+        g = lambda nm: ctx.store[(self.g.oid, nm)]
+        ck = z3.Function("schema_kind", I_, I_)(self.concrete)
+        live = self.concrete != 0
+        signal = self.pkind == TS["Signal"]
+        through_ref = z3.And(live, z3.Not(signal), self.pkind != TS["REF"], ck == TSK["REF"])
+        direct = z3.And(live, z3.Not(signal), z3.Not(through_ref))
+        svar = z3.And(direct, self.pkind == TS["TSB"], ck == TSK["TSB"], z3.Bool("pattern_schema_var"))
+        is_bound = self.bound != 0
+        bound_once = z3.And(g("binds") == 1, g("bind_ok"), g("bound_to") == self.concrete)
+        ret = ret if z3.is_bool(ret) else ret != 0
+        ctx.oblige("ensures.no-schema=>no-match", z3.Implies(z3.Not(live), z3.And(z3.Not(ret), g("binds") == 0)), kind="post-normal")
+        ctx.oblige("ensures.a-signal-parameter-accepts-any-time-series,binding-nothing", z3.Implies(z3.And(live, signal), z3.And(
+            ret, g("binds") == 0)), kind="post-normal")
+        ctx.oblige("ensures.a-reference-is-transparent:the-answer-is-that-of-the-referenced-schema",
+                   z3.Implies(through_ref, z3.And(g("delegated_same_pattern") == 1, g("binds") == 0, ret == self.rec_result,
+                                                  g("delegated_to") == z3.Function("referenced_ts", I_, I_)(self.concrete))),
+                   kind="post-normal")
+        ctx.oblige("ensures.bound-bundle-schema-variable:the-identical-bundle-matches,nothing-is-re-bound[C19]",
+                   z3.Implies(z3.And(svar, is_bound), z3.And(z3.Implies(self.bound == self.concrete, ret), g("binds") == 0)),
+                   kind="post-normal")
+        ctx.oblige("ensures.bound-bundle-schema-variable-never-matches-a-bundle-of-another-shape[C19 every type variable bound to one "
+                   "type across all positions]", z3.Implies(z3.And(svar, is_bound, ret), Equiv(self.bound, self.concrete)),
+                   kind="post-normal")
+        ctx.oblige("ensures.free-bundle-schema-variable-is-bound-once-to-the-supplied-bundle-iff-its-constraints-allow-it[C19 the selected "
+                   "candidate's parameters really match the supplied types]",
+                   z3.Implies(z3.And(svar, z3.Not(is_bound)), z3.And(ret == self.allowed, z3.If(ret, bound_once, g("binds") == 0))),
+                   kind="post-normal")
+
+
+KERNELS += [InputTsPatternMatch]
